@@ -63,17 +63,21 @@ def run(ctx: Ctx) -> None:
     seen = set()
     n = 0
     for c in cases:
-        key = json.dumps([c["r"], c["d"]], sort_keys=True)
+        key = json.dumps([c["r"], c["d"], c["closed"]], sort_keys=True)
         if key in seen:
             continue
         seen.add(key)
         route, links, pos = [], {}, 0
-        for lk in c["r"]:
+        last_real = max([i for i, lk in enumerate(c["r"]) if not lk["deg"]], default=-1)
+        for i, lk in enumerate(c["r"]):
             lid = str(lk["id"])
             # whole-second travel time tt: distance (tt + 0.5) * 10 m at 10 m/s truncates to tt
             dist_km = (lk["tt"] + 0.5) * 10.0 / 1000.0
             if lk["deg"]:
                 a = b = cells[pos]
+            elif c["closed"] and i == last_real:
+                a, b = cells[pos], cells[0]        # the loop closes: back to where the route started
+                pos = 0
             else:
                 a, b = cells[pos], cells[pos + 1]
                 pos += 1
@@ -94,12 +98,10 @@ def run(ctx: Ctx) -> None:
 
         exp = [[int(lt.link_id), part(lt, "head")] for lt in result.experienced_route]
         rem = [[int(lt.link_id), part(lt, "tail")] for lt in result.remaining_route]
-        # a route whose first start equals its last end is not traversed at all by the real function (it is "consumed");
-        # the abstract model has no cells, so those cases (all links degenerate) are compared on that rule only
-        if all(lk["deg"] for lk in c["r"]):
-            if exp or rem:
-                ctx.violation("traverse_agrees_with_model", "all_degenerate", case=c, real={"exp": exp, "rem": rem})
-            continue
+        # a route whose first start equals its last end is not traversed at all by the real function (it is "consumed"):
+        # the model's `closed` flag, realised here by closing the loop on the first cell
+        if c["closed"] != (route[0].start == route[-1].end):
+            raise MachineryError(f"traverse replay built a route that does not match the model's `closed` flag: {c}")
         if exp != [list(x) for x in c["exp"]] or rem != [list(x) for x in c["rem"]]:
             ctx.violation("traverse_agrees_with_model", "structure", case=c, real={"exp": exp, "rem": rem})
     ctx.coverage["model_cases_executed_in_real_traverse"] = n
